@@ -107,7 +107,7 @@ def generate(rng, tier):
             if g.chance(0.15):
                 it = it + [it[0]]
             vs = [] if g.chance(0.4) else g.subset(
-                VARNAMES + ['never_saved'], 0.2, 0.8, nonempty=True)
+                VARNAMES + ['never_saved', 't'], 0.2, 0.8, nonempty=True)
             ops.append({'op': 'read', 'it': it, 'vars': vs,
                         'rl': g.weighted([(0, 5), (1, 3), (2, 1), (10, 1)])})
     return {'config': cfg, 'ops': ops}
